@@ -10,7 +10,7 @@ fn build() -> Vec<Box<dyn Property>> {
         for id in ["C01", "C02", "C03", "C04", "C05", "C07", "C08", "C09", "C14"] {
             for s in stages(id) {
                 // one stage per distinct generator; debug-profile stages are the same code here
-                if !s.prop.stage().contains("debug") && s.prop.stage() != "wide" {
+                if vcore::props::registry::fuzzable(&s) {
                     v.push(s.prop);
                 }
             }
